@@ -59,6 +59,41 @@ theorem noMutation_sound {n : Nat} (f : Func n) (hf : noMutation f = true) (I : 
   have := (I.fresh_iff b).1 hown
   omega
 
+/-- **Soundness of `writesOnly`.**  If the checker accepts a program with the allowed origins `allowed`, then
+    after every execution every entry buffer that is NOT owned by one of the allowed origins has its entry
+    contents.  For the apps of sigpy (`LinearLeastSquares` set-ups and closures, the MRI recon apps): with
+    `allowed` = the object itself and its solution / work arrays, the data `y`, the bias `z`, the maps, the
+    weights, the coordinates and the arrays captured by `A`, `G`, `proxg` are never written. -/
+theorem writesOnly_sound {n : Nat} (f : Func n) (allowed : List Origin) (hf : writesOnly f allowed = true)
+    (I : Interp) (σ σ' : Store n) (hn : I.n0 = σ.next)
+    (henv : ∀ v b, b ∈ σ.env v → b < σ.next ∧ ∃ o ∈ f.init v, I.own o b)
+    (hret : σ.ret = []) (hex : Exec f.body σ σ') :
+    ∀ b, b < σ.next → (∀ o ∈ allowed, ¬ I.own o b) → σ'.heap b = σ.heap b := by
+  intro b hb hnot
+  have hc0 : Consistent I σ.heap f.abs0 σ :=
+    ⟨by omega, henv, fun b _ h => absurd rfl h, by simp [hret]⟩
+  simp only [writesOnly, Func.result, Bool.and_eq_true, List.all_eq_true] at hf
+  have hc := analyze_sound I σ.heap f.body f.abs0 σ σ' hex hf.1 hc0
+  apply Decidable.byContradiction
+  intro hne
+  obtain ⟨o, ho, hown⟩ := hc.heap b (hn ▸ hb) hne
+  have h1 := hf.2 o ho
+  simp only [Bool.or_eq_true, beq_iff_eq, List.contains_eq_mem, decide_eq_true_eq] at h1
+  rcases h1 with h1 | h1
+  · subst h1
+    have := (I.fresh_iff b).1 hown
+    omega
+  · exact hnot o h1 hown
+
+/-- `writesOnly f []` is `noMutation f` -/
+theorem writesOnly_nil {n : Nat} (f : Func n) : writesOnly f [] = noMutation f := by
+  simp [writesOnly, noMutation]
+
+/-- non-vacuity: `x` (parameter 0) is the documented in/out argument, `y` (parameter 1) is protected:
+    `x += y` passes with `allowed = [param 0]`, `y += x` does not -/
+example : writesOnly ({ np := 2, nc := 0, body := .instr (.mutate 0) } : Func 2) [.param 0] = true := by decide
+example : writesOnly ({ np := 2, nc := 0, body := .instr (.mutate 1) } : Func 2) [.param 0] = false := by decide
+
 /-- the canonical interpretation: `param i` / `captured k` own exactly the buffers their variable
     references at entry -/
 def entryInterp {n : Nat} (f : Func n) (σ : Store n) : Interp where
